@@ -237,6 +237,23 @@ theorem ifx_decides (a b : XTok) (s : St) (h : nfIfx a b = true) : ev (.ifx a b)
 
 theorem ifdefined_decides (n : Nat) (s : St) : ev (.defined n) s = .ok (.bool (s.defd n)) := rfl
 
+/-- **Setter names.**  For every switch name `if<rest>` — also when `<rest>` itself starts with `i` or
+    `f` (`\iffoo`, `\iffirst`, `\ifitem`, `\ififi…`) — `\newif` registers exactly the switch under its
+    own name and the setters `\<rest>true`, `\<rest>false` that TeX prescribes. -/
+theorem newif_setter_names (rest : List Nat) :
+    texSetterNames (105 :: 102 :: rest) = some ((newifNames (105 :: 102 :: rest)).2.1, (newifNames (105 :: 102 :: rest)).2.2)
+    ∧ (newifNames (105 :: 102 :: rest)).1 = 105 :: 102 :: rest := by
+  simp [texSetterNames, newifNames, trueSuffix, falseSuffix]
+
+/-- `\newif\iffoo` gives `\footrue` / `\foofalse` (not `\ootrue`) -/
+example : newifNames [105, 102, 102, 111, 111] = ([105, 102, 102, 111, 111], [102, 111, 111, 116, 114, 117, 101], [102, 111, 111, 102, 97, 108, 115, 101]) := by rfl
+
+/-- the setters of two different switches never coincide, and a true-setter is never a false-setter of the same switch -/
+theorem newif_setters_distinct (r1 r2 : List Nat) (h : r1 ≠ r2) :
+    (newifNames (105 :: 102 :: r1)).2.1 ≠ (newifNames (105 :: 102 :: r2)).2.1 ∧
+    (newifNames (105 :: 102 :: r1)).2.2 ≠ (newifNames (105 :: 102 :: r2)).2.2 := by
+  simp [newifNames, h]
+
 /-- a switch created by `\newif` is initially false -/
 theorem newif_initial_false (k : Nat) (s : St) (h : s.sw k = none) :
     ev (.sw k) (decl (.ifl (.sw k)) s) = .ok (.bool false) := by
